@@ -148,6 +148,18 @@ func scenarioRelay() int {
 			forcedPath = &p
 			var burst []*relayCase
 			var all []byte
+			brokenFirst := false
+			switch {
+			case p.Proto == "udp" && g.R.Intn(2) == 0:
+				// a keep-alive datagram (CRLF CRLF, no message) right before the burst
+				w.Send(p, []byte("\r\n\r\n"), "")
+			case p.Proto == "tcp" && g.R.Intn(4) == 0:
+				// the connection first carries something that is no SIP message (a header line without
+				// colon, a body that does not end in a line break). Whatever the proxy does with the
+				// connection after that - what it relays of the following messages must be their image
+				brokenFirst = true
+				all = append(all, []byte("MESSAGE sip:x@foreign.example SIP/2.0\r\nVia: SIP/2.0/TCP 192.0.2.7;branch=z9hG4bKbroken\r\nthis line has no colon\r\nContent-Length: 4\r\n\r\nabcd")...)
+			}
 			for k := 0; k < 3+g.R.Intn(8); k++ {
 				bc := genRelayCase(w, g, i*100+k, prop)
 				raw := bc.in.Bytes()
@@ -164,6 +176,11 @@ func scenarioRelay() int {
 			forcedPath = nil
 			if p.Proto == "tcp" && len(all) > 0 {
 				w.Send(p, all, "")
+			}
+			if brokenFirst {
+				// (the connection may be closed under the burst: the sentinel takes a new one)
+				time.Sleep(40 * time.Millisecond)
+				w.DropConn(p)
 			}
 			if !w.Barrier(p) {
 				run.Inconclusive(1)
